@@ -183,8 +183,11 @@ def main(ctx, replay=None):
         check_permutations(ctx, rng, sc, insts[sc], case, strain, run)
         ctx.sample({"scenario": sc, "request": list(seqs[min(3, len(seqs) - 1)]), "strain_row0": strain[0].tolist()})
 
+    # ---- the shipped example(s): the scheduler run of a real calculation is a behaviour of the same specification ------
+    real_runs(ctx, insts, traces, trace_meta, scr)
+
     # ---- T: validate the recorded runs, one TLC invocation per scenario ----------------------------------
-    for sc in sched.SCENARIOS:
+    for sc in list(traces):
         if not traces[sc]:
             continue
         ok, consumed, res = validate_trace(ctx, "Trace_Sched", "Trace_Sched.cfg", traces[sc], name=f"sched_{sc}",
@@ -206,6 +209,86 @@ def main(ctx, replay=None):
 
     if ctx.tier == "thorough":
         negative_control(ctx, traces)
+
+
+def real_runs(ctx, insts, traces, trace_meta, scr):
+    """Record the task list of a real Calculator (shipped data, lattice-derived strain fractions) and queue it for validation."""
+    import shutil
+    import tempfile
+    import yaml
+    from pathlib import Path
+    from cv.core import REPO
+    from cv.synth import run as run_calc
+    names = ["akimotoite"] + (["diopside"] if ctx.tier == "thorough" else [])
+    tmp = Path(tempfile.mkdtemp(prefix="cijverif.c04real."))
+    try:
+        for name in names:
+            d = tmp / name
+            shutil.copytree(REPO / "examples" / name, d)
+            cfg = yaml.safe_load((d / "settings.yaml").read_text())
+            cfg["qha"]["settings"].update({"NT": 3, "DT": 500, "DT_SAMPLE": 500, "NTV": 21, "DELTA_P": 1.0, "DELTA_P_SAMPLE": 1.0})
+            (d / "settings.yaml").write_text(yaml.safe_dump(cfg))
+            case = {"example": name}
+            ctx.count(case)
+            try:
+                calc = run_calc(d / "settings.yaml")
+            except Exception as ex:
+                raise MachineryError(f"examples/{name} does not run: {ex!r}")
+            fm = calc._full_modulus
+            strain = fm.get_axial_strains()
+            # the code's own task equality is numpy.allclose (rtol 1e-5): fractions closer than 1e-6 are "equal" for it, fractions further
+            # apart than 1e-3 are certainly different; anything between is left alone here
+            same = lambda a, b: bool(numpy.allclose(strain[:, a], strain[:, b], rtol=1e-6, atol=0))
+            apart = lambda a, b: bool(numpy.min(numpy.abs(strain[:, a] - strain[:, b])) > 1e-3 * numpy.max(numpy.abs(strain)))
+            if same(0, 1) and same(0, 2):
+                sc = "isotropic"
+            elif same(0, 1) and apart(0, 2):
+                sc = "uniaxial"
+            elif same(1, 2) and apart(0, 1):
+                sc = "uniaxial23"
+            elif same(0, 2) and apart(0, 1):
+                sc = "uniaxial13"
+            elif apart(0, 1) and apart(0, 2) and apart(1, 2):
+                sc = "generic"
+            else:
+                ctx.cov.setdefault("real_runs_skipped", []).append(name)      # a strain pattern none of the three instances describes
+                continue
+            if sc not in insts:
+                insts.update(sched.load_instances(ctx, scenarios=(sc,)))
+                scr[sc] = ctx.subdir(f"mc_{sc}")
+                sched.write_data_module(insts[sc], scr[sc])
+                traces[sc], trace_meta[sc] = [], []
+            keys = list(calc.modulus_keys)
+            events, tl, (iso, adi), info = record(insts[sc], calc, strain, keys, rtol=2e-5, atol=1e-8)
+            rep = {"example": name, "scenario": sc, "request": ["%d%d" % k.voigt for k in keys]}
+            sig = {"scenario": sc, "example": name}
+            if info["error"] is not None:
+                ctx.violation(f"examples/{name}: resolve/calculate raised {info['error']!r}", rep, {**sig, "clause": "complete_raises"})
+                continue
+            missing = ["%d%d" % k.voigt for k in keys if k not in iso or k not in adi]
+            if missing:
+                ctx.violation(f"examples/{name}: no value for {missing}", rep, {**sig, "clause": "complete"})
+                continue
+            # the same request on the same calculator gives the values the calculation itself used
+            scale = max(float(numpy.max(numpy.abs(numpy.nan_to_num(numpy.asarray(v))))) for v in iso.values()) or 1.0
+            for k in keys:
+                if relerr(iso[k], fm._isothermal_phonon_contribution[k], scale) > 1e-9 or relerr(adi[k], fm._adiabatic_phonon_contribution[k], scale) > 1e-9:
+                    ctx.violation(f"examples/{name}: c{k.voigt[0]}{k.voigt[1]} of a second task list on the same calculator differs from the "
+                                  f"value the calculation used", {**rep, "key": list(k.voigt)}, {**sig, "clause": "request_independent"})
+                    break
+            if events is None:
+                ctx.cov.setdefault("real_runs_unprojected", []).append([name, info["projection"]])
+                continue
+            if info["projection"] == "non-injective":
+                ctx.cov.setdefault("real_runs_unprojected", []).append([name, "non-injective"])
+                continue
+            if traces[sc]:
+                traces[sc].append({"ev": "Reset"})
+            traces[sc] += events
+            trace_meta[sc].append((len(traces[sc]), rep["request"], f"examples/{name}"))
+            ctx.cov.setdefault("real_runs_validated", []).append([name, sc, len(events)])
+    finally:
+        shutil.rmtree(tmp, ignore_errors=True)
 
 
 def check_isotropy(ctx, vals, scale, rep, sig):
